@@ -159,7 +159,9 @@ Prim(n, a, hp) ==
        IF ~l.ok THEN Err("type") ELSE LET r == SeqToList(Reverse(l.s), NilV, hp) IN Ok(r.v, r.hp)
   [] n = "list-tail" ->
        IF a[2].t # "int" THEN (IF a[2].t = "num" THEN Oom ELSE Err("type"))
-       ELSE IF a[2].v < 0 THEN Err("range") ELSE WithHp(TailR(a[1], a[2].v, hp))
+       ELSE IF a[2].v < 0 THEN Err("range")
+       ELSE IF a[1].t \notin {"pair", "nil"} THEN Oom     \* not a list at all: R7RS says nothing for k = 0
+       ELSE WithHp(TailR(a[1], a[2].v, hp))
   [] n = "list-ref" ->
        IF a[2].t # "int" THEN (IF a[2].t = "num" THEN Oom ELSE Err("type"))
        ELSE IF a[2].v < 0 THEN Err("range")
